@@ -1,5 +1,6 @@
 import Driver.Util
 import LiquidVerif.Model.LoopRender
+import LiquidVerif.Model.LoopStack
 open Lean LiquidVerif.Loop
 
 namespace Driver.C13
@@ -176,7 +177,43 @@ def handleIter (args : List Json) : Json :=
     | _, _ => jerr "bad-iter"
   | _ => jerr "bad-args"
 
+/-! ### the loop stack under exceptions (`Model/LoopStack.lean`) -/
+namespace Stack
+open LiquidVerif LiquidVerif.LoopStack
+
+def parseRef : String → Option Ref
+  | "index" => some .index | "length" => some .length | "defined" => some .defined | _ => none
+
+def parseNode : Nat → Json → Option LoopStack.Node
+  | 0, _ => none
+  | fuel + 1, j => do
+    match (← asArr? j) with
+    | [.str "nop"] => pure LoopStack.Node.nop
+    | [.str "text", s] => pure (LoopStack.Node.text (← asStr? s))
+    | [.str "fail"] => pure LoopStack.Node.fail
+    | [.str "ref", up, f] => pure (LoopStack.Node.ref (← asNat? up) (← parseRef (← asStr? f)))
+    | [.str "seq", a, b] => pure (LoopStack.Node.seq (← parseNode fuel a) (← parseNode fuel b))
+    | [.str "for", n, b] => pure (LoopStack.Node.for_ (← asNat? n) (← parseNode fuel b))
+    | [.str "tablerow", n, b] => pure (LoopStack.Node.tablerow (← asNat? n) (← parseNode fuel b))
+    | [.str "break"] => pure LoopStack.Node.brk
+    | [.str "continue"] => pure LoopStack.Node.cont
+    | _ => none
+
+/-- `["c13stack", "strict"|"lax", maxDepth, [node…]]` → `{"out", "err": null|"liquid"|"depth", "loops": n}` -/
+def handle (args : List Json) : Json :=
+  match args with
+  | [.str mode, d, nodes] =>
+    match asNat? d, (asArr? nodes).bind (mapM? (parseNode 200)) with
+    | some d, some ns =>
+      let (st, e) := renderTemplate (if mode == "strict" then .strict else .lax) d { loops := [], out := "" } ns
+      Json.mkObj [("out", jstr st.out), ("loops", jnat st.loops.length),
+                  ("err", match e with | none => Json.null | some .liquid => jstr "liquid" | some .depth => jstr "depth")]
+    | _, _ => jerr "bad-stack-case"
+  | _ => jerr "bad-args"
+end Stack
+
 def commands : List (String × (List Lean.Json → Lean.Json)) :=
-  [("c13render", handleRender), ("c13slice", handleSlice), ("c13drop", handleDrop), ("c13iter", handleIter)]
+  [("c13render", handleRender), ("c13slice", handleSlice), ("c13drop", handleDrop), ("c13iter", handleIter),
+   ("c13stack", Stack.handle)]
 
 end Driver.C13
